@@ -942,13 +942,36 @@ func callBuiltin(caller *frame, callpos token.Pos, fn *ssa.Builtin, args []value
 			return arg0
 		}
 		// append([]T, ...[]T) []T
-		return append(args[0].([]value), args[1].([]value)...)
+		dst, src := args[0].([]value), args[1].([]value)
+		if sc := caller.i.sched; sc.hb {
+			for i := range src {
+				sc.access(caller, &src[i], false, nil)
+			}
+			if len(dst)+len(src) <= cap(dst) { // written in place: the backing array may be shared
+				full := dst[:len(dst)+len(src)]
+				for i := len(dst); i < len(full); i++ {
+					sc.access(caller, &full[i], true, nil)
+				}
+			}
+		}
+		return append(dst, src...)
 
 	case "copy": // copy([]T, []T) int or copy([]byte, string) int
 		src := args[1]
 		if _, ok := src.(string); ok {
 			params := fn.Type().(*types.Signature).Params()
 			src = conv(params.At(0).Type(), params.At(1).Type(), src)
+		}
+		if sc := caller.i.sched; sc.hb {
+			d, sv := args[0].([]value), src.([]value)
+			n := len(d)
+			if len(sv) < n {
+				n = len(sv)
+			}
+			for i := 0; i < n; i++ {
+				sc.access(caller, &sv[i], false, nil)
+				sc.access(caller, &d[i], true, nil)
+			}
 		}
 		return copy(args[0].([]value), src.([]value))
 
